@@ -829,9 +829,61 @@ fn big_int_layer(col: &Collector) -> Vec<Failure> {
     out
 }
 
+/// PERCENTILE over groups of 7 / 200 / 1000 values (INT and TEXT arguments) for fractions that are no whole percent:
+/// the element at index floor(p * n) of the sorted values (n - 1 for p = 1)
+fn percentile_layer(col: &Collector) -> Vec<Failure> {
+    let tables = sut::make_tables(DEF).unwrap();
+    let mut out = Vec::new();
+    let mut n_cases = 0u64;
+    for n in [7usize, 200, 1000] {
+        // a fixed permutation of 0..n
+        let vals: Vec<i64> = (0..n).map(|i| ((i * 7919 + 13) % n) as i64).collect();
+        let mut seen = vals.clone();
+        seen.sort();
+        seen.dedup();
+        assert_eq!(seen.len(), n);
+        let lines: Vec<String> = vals.iter().map(|v| format!("{{\"m\":\"m\",\"k\":\"{}\",\"v\":{},\"s\":\"s{:04}\"}}", if v % 2 == 0 { "e" } else { "o" }, v, v)).collect();
+        let lrefs: Vec<&str> = lines.iter().map(|s| s.as_str()).collect();
+        for p in ["0.001", "0.005", "0.125", "0.3333", "0.5", "0.995", "0.999", "1.0", "0.0"] {
+            let pf: f64 = p.parse().unwrap();
+            let idx = |len: usize| -> usize { (((pf * len as f64).floor()) as usize).min(len - 1) };
+            for (text, want) in [
+                (format!("SELECT PERCENTILE(v, {}) FROM t", p), vec![vec![RVal::Int(idx(n) as i64)]]),
+                (format!("SELECT PERCENTILE(s, {}) FROM t", p), vec![vec![RVal::Text(format!("s{:04}", idx(n)))]]),
+                (format!("SELECT k, PERCENTILE(v, {}) FROM t GROUP BY k", p), {
+                    let ev: Vec<i64> = (0..n as i64).filter(|v| v % 2 == 0).collect();
+                    let od: Vec<i64> = (0..n as i64).filter(|v| v % 2 == 1).collect();
+                    vec![vec![RVal::Text("e".into()), RVal::Int(ev[idx(ev.len())])], vec![RVal::Text("o".into()), RVal::Int(od[idx(od.len())])]]
+                }),
+                (format!("SELECT COUNT(*) FROM t HAVING PERCENTILE(v, {}) = {}", p, idx(n)), vec![vec![RVal::Int(n as i64)]]),
+            ] {
+                n_cases += 1;
+                let got = sut::run_batch(&tables, &sut::parse(&text).unwrap(), &lrefs);
+                let ok = matches!(&got, Outcome::Ok(t) if format!("{:?}", rows_json(&t.rows)) == format!("{:?}", rows_json(&want)));
+                if !ok {
+                    out.push(fail(
+                        format!("aggregate:percentile-large-group:{}", if text.contains("HAVING") { "having" } else if text.contains("(s,") { "text" } else { "int" }),
+                        format!("`{}` over {} values (a permutation of 0..{}): got {}, expected {:?}", text, n, n, match &got { Outcome::Ok(t) => format!("{:?}", rows_json(&t.rows)), Outcome::Err(e) => format!("error {}", e), Outcome::Panic(p) => format!("panic {}", p.msg) }, rows_json(&want)),
+                        json!({"layer": "percentile", "statement": text, "n": n}),
+                        json!(rows_json(&want)),
+                        sut::outcome_json(&got, |t| t.to_json()),
+                        n_cases,
+                    ));
+                }
+            }
+        }
+    }
+    col.eval(n_cases);
+    col.layer("PERCENTILE over groups of 7 / 200 / 1000 values, fractions that are no whole percent", n_cases, true, json!({"fractions": 9}));
+    out
+}
+
 pub fn run(ctx: &Ctx) -> i32 {
     let col = Collector::new();
     for f in big_int_layer(&col) {
+        col.fail(f);
+    }
+    for f in percentile_layer(&col) {
         col.fail(f);
     }
     let tables = sut::make_tables(DEF).unwrap();
@@ -893,6 +945,9 @@ pub fn run(ctx: &Ctx) -> i32 {
 }
 
 pub fn replay(case: &J) -> Vec<Failure> {
+    if case["layer"].as_str() == Some("percentile") {
+        return percentile_layer(&Collector::new()).into_iter().filter(|f| f.case == *case).collect();
+    }
     if case["layer"].as_str() == Some("big-int") {
         return big_int_layer(&Collector::new()).into_iter().filter(|f| f.case == *case).collect();
     }
